@@ -69,12 +69,6 @@ class SHMPickler(pickle.Pickler):
                     obj.values(),
                     obj.shape,
                 )
-            elif obj.is_sparse:
-                return torch.sparse_coo_tensor, (
-                    obj.indices(),
-                    obj.values(),
-                    obj.shape,
-                )
             elif obj.layout == torch.sparse_csc:
                 return torch.sparse_csc_tensor, (
                     obj.ccol_indices(),
@@ -83,6 +77,10 @@ class SHMPickler(pickle.Pickler):
                     obj.shape,
                 )
             else:
+                # dense tensors and sparse COO tensors: torch's reduction shares
+                # the storage and keeps a COO tensor's coalesced flag
+                # (rebuilding from indices() / values() fails for an uncoalesced
+                # tensor and hands back a coalesced one as uncoalesced).
                 return reduce_tensor(obj)
 
         if isinstance(obj, torch.UntypedStorage):
